@@ -19,7 +19,8 @@ tvars == <<tid, l, verdict, g, pending, hist, lastEff>>
 
 Ev == Traces[tid][l]
 \* the configuration as the code reports it, in the spec's terms
-Logged(e) == [mfm |-> e.g.mfm, ofm |-> e.g.ofm, style |-> e.g.style,
+\* a full-match flag is in force iff the stored value is True (absent / None / False: substring matching)
+Logged(e) == [mfm |-> (e.g.mfm = "True"), ofm |-> (e.g.ofm = "True"), style |-> e.g.style,
               range |-> e.g.range, sections |-> e.g.sections]
 SameCfg(x, y) == /\ x.mfm = y.mfm /\ x.ofm = y.ofm /\ x.style = y.style /\ x.sections = y.sections
                  /\ Len(x.range) = Len(y.range)
